@@ -51,7 +51,12 @@ void attach(const Op &op, int64_t &al, int64_t &sc, int64_t &cb, Counters &cnt) 
   al = sc = cb = -1;
   for (const Fault &f : op.faults) {
     if (f.kind == F_ALLOC) al = f.k;
+#ifndef SIM_SELFCHK
+    // with the library's self-checks compiled in, noexcept accessors perform
+    // scalar comparisons: a throwing scalar there is std::terminate, so this
+    // flavour injects allocation and callback faults only (DESIGN §2.2(3))
     else if (f.kind == F_SCALAR) sc = f.k;
+#endif
     else if (f.kind == F_CALLBACK) cb = f.k;
     if (f.kind >= 0 && f.kind < F_NKINDS) cnt.faults_attached[f.kind]++;
   }
@@ -153,6 +158,9 @@ void sweep_op(WorldRun &wr, int task, const Pool &pool, const Op &op, uint32_t i
   if (!one(-1, -1)) return;
   for (uint32_t k = 0; k < A; k++)
     if (!one(F_ALLOC, k)) return;
+#ifdef SIM_SELFCHK
+  S = 0;
+#endif
   uint32_t cap = (uint32_t)std::max(1, wr.plan->sweep_cap);
   sim::Rng r(sim::mix3(wr.plan->seed, 0x53ee9, ((uint64_t)(uint32_t)(task + 1) << 32) | idx));  // the *sweep* stream
   if (S <= cap) {
